@@ -111,7 +111,15 @@ def _(self, data: ByteArray, offset: Nat, length: Opt(Int)):
 def _(self, data: ByteArray, offset: Nat, length: Opt(Int)):
     refines("StandardDecodeMixin.decode_content")
     use_abstract("decode_constructed_segments")
-    loop(0, invariant=[offset >= old(offset), offset <= len(data)], decreases=len(data) - offset)
+    # X.690 8.1.3/8.1.5: definite-length contents end exactly length octets after their start -- an empty constructed
+    # string (length 0) has no segment and consumes nothing; the end-of-contents octets are looked for in the
+    # indefinite form only, so octets after a definite-length value are never inspected (tail independence)
+    at_stmt("break", check=[length is None or (offset - old(offset) >= length and offset == at_head(offset))])
+    ensures(implies(length is not None, result[1] >= offset + length))
+    ensures(implies(length is not None and length <= 0, result[1] == offset))
+    loop(0, invariant=[offset >= old(offset), offset <= len(data),
+                       implies(length is not None and length <= 0, offset == old(offset))],
+         decreases=len(data) - offset)
 
 
 @contract("PrimitiveOrConstructedType.decode_primitive_contents", abstract=True)
@@ -327,3 +335,12 @@ def _(self, segments: ListOf(Bytes, 3)) -> Str:
     native(examples=[{'segments': [b'\xc3', b'\xa9']}, {'segments': [b'a\xe2\x82', b'\xac', b'b']},
                      {'segments': [b'\x00', b'\xe9']}, {'segments': [b'\x00\x00\x00', b'\xe9']}])
     ensures(result == text_decode(concat_all(segments), self.ENCODING))
+
+
+@contract("Choice.get_member_tags", props=["C04", "C01"], label="string-like")
+def _(self, member: Obj("PrimitiveOrConstructedType")):
+    # X.690 8.7/8.21/8.6: every string-like alternative (OCTET STRING, BIT STRING, the character strings) may arrive in
+    # primitive or constructed form, so *both* identifier octets select it in CHOICE dispatch -- for every class
+    # derived from PrimitiveOrConstructedType, present or future (this is what makes the tag_to_member assumption of
+    # Choice.decode hold for these alternatives)
+    ensures(len(result) == 2 and list(result[0]) == list(member.tag) and list(result[1]) == list(member.constructed_tag))
